@@ -1398,13 +1398,21 @@ class PCE500Emulator:
             "cs_right_count": getattr(self.lcd, "cs_right_count", 0),
         }
         payload = bytearray()
-        for chip_snap in chips:
+        live_chips = list(getattr(self.lcd, "chips", []) or [])
+        for idx, chip_snap in enumerate(chips):
+            live_state = (
+                getattr(live_chips[idx], "state", None)
+                if idx < len(live_chips)
+                else None
+            )
             meta["chips"].append(
                 {
                     "on": chip_snap.on,
                     "start_line": chip_snap.start_line,
                     "page": chip_snap.page,
                     "y_address": chip_snap.y_address,
+                    # BUSY is visible in the next status read, so it is state too.
+                    "busy": bool(getattr(live_state, "busy", False)),
                     "instruction_count": chip_snap.instruction_count,
                     "data_write_count": chip_snap.data_write_count,
                 }
